@@ -69,6 +69,9 @@ type exCall struct {
 }
 
 type exMachine struct {
+	sharedRL   map[time.Duration]bigbuff.ExclusiveOption
+	sharedUsed int
+
 	prof  string
 	t     *rapid.T
 	st    *vkit.Stats
@@ -408,10 +411,24 @@ func (m *exMachine) ruleCall(t *rapid.T) {
 	case "Options", "OptionsStart":
 		c.skip = rapid.IntRange(0, 3).Draw(t, "skipResolve") == 0
 		opts := []bigbuff.ExclusiveOption{bigbuff.ExclusiveKey(k), bigbuff.ExclusiveWork(work), bigbuff.ExclusiveWait(wait)}
-		if rapid.IntRange(0, 3).Draw(t, "rateLimit") == 0 {
+		switch rapid.IntRange(0, 5).Draw(t, "rateLimit") {
+		case 0:
 			c.minDur = rapid.SampledFrom([]time.Duration{time.Millisecond, time.Second}).Draw(t, "minDur")
 			c.rlCtx, c.rlCan = context.WithCancel(m.rlCtx) // its own context: a rule may cancel it while its work runs
 			opts = append(opts, bigbuff.ExclusiveRateLimit(c.rlCtx, c.minDur))
+		case 1:
+			// one option VALUE built once and passed to calls under any key (an option is a description, not a
+			// resource: sharing it must not couple the keys it is used with)
+			c.minDur = rapid.SampledFrom([]time.Duration{time.Millisecond, time.Second}).Draw(t, "minDur")
+			if m.sharedRL == nil {
+				m.sharedRL = map[time.Duration]bigbuff.ExclusiveOption{}
+			}
+			if _, ok := m.sharedRL[c.minDur]; !ok {
+				m.sharedRL[c.minDur] = bigbuff.ExclusiveRateLimit(m.rlCtx, c.minDur)
+			}
+			c.rlCtx = m.rlCtx
+			opts = append(opts, m.sharedRL[c.minDur])
+			m.sharedUsed++
 		}
 		if rapid.Bool().Draw(t, "shuffleOpts") {
 			opts[0], opts[1] = opts[1], opts[0]
